@@ -39,6 +39,7 @@ def one_tree(ctx, drv, label, hostile=True):
     root = common.scratch_dir('gv.tree.')
     try:
         pl = gen_tree.gen_plan(rng, depth=rng.choice([1, 2, 3, 4]), hostile=hostile)
+        pl.allow_data_for_manifest = True
         gen_tree.layout(pl, rng)
         gen_tree.write_plan(pl, root)
         dup_kinds = [n for n in pl.notes if n.startswith('dup:')]
